@@ -143,10 +143,25 @@ class ExitStackStub:
             self._it.call_value(fn, list(args), dict(kwargs), self._ev, None)
 
 
+class ConfigStub:
+    """cobra.Configuration() with its documented defaults (a module-level `configuration = Configuration()`)."""
+
+    def __init__(self):
+        self.lower_bound, self.upper_bound = -1000.0, 1000.0
+        self.tolerance = 1e-07
+        self.processes = 1
+        self.solver = "glpk"
+
+    @property
+    def bounds(self):
+        return (self.lower_bound, self.upper_bound)
+
+
 class Interp:
     def __init__(self, prog, native: Tuple[type, ...], follow: Sequence[str] = (), stubs: Optional[Dict[str, Callable]] = None, globals_: Optional[Dict[str, Any]] = None, max_depth: int = 8):
         self.prog = prog
-        self.native = tuple(native) + (ExitStackStub,)
+        self.native = tuple(native) + (ExitStackStub, ConfigStub)
+        self.config = ConfigStub()
         self.follow = set(follow)
         self.stubs = dict(stubs or {})
         self.stubs.setdefault("contextlib.ExitStack", lambda it_, ev, c, a, k: ExitStackStub(it_, ev))
@@ -244,6 +259,10 @@ class Interp:
                 import re as _re
 
                 return _re.compile(*[a.value for a in v.args])
+            if isinstance(v, ast.Call) and not v.args and not v.keywords:
+                csym = self.prog.resolve(ev.fn.unit, norm(v.func))
+                if isinstance(csym, ClassInfo) and csym.name == "Configuration":
+                    return self.config
         return NotImplemented
 
     def call_value(self, target, args, kwargs, ev, node):
